@@ -168,6 +168,11 @@ T_C09_RoundTrip ==
     /\ ob.validate_data = ""
     /\ ob.reexport_equal
     /\ ob.inv_after_import = ""
+\* the MODEL of the validators (Props!GenesisValid) agrees with the real validators at every
+\* export observation: this binds C09_ValidGenesis, which TLC checks on all reachable states
+\* of the bounded models, to the code
+T_C09_ValidatorModel ==
+  (ev.type = "ExportImport" /\ ob.export_panic = "") => ((ob.validate_eco = "") <=> GenesisValid(st))
 \* the imported chain is in the same abstract state (and the behaviour goes on there)
 T_C09_SameState == [][ev'.type = "ExportImport" => st' = st]_tvars
 
